@@ -232,6 +232,14 @@ func (r *runner) round(round int, honest []*sent, forged []*tampered) {
 				tm.sameH = true
 				c.Probe("tampered-same-tx-hash")
 			}
+			st := &lookState{}
+			stage := "replica mempool (cache " + warmth(warm[s]) + ")"
+			if r.history(stage, w.R, obj, s.kind, tm.name, tm.v, tm, st, true) {
+				tm.memAcc = true
+			}
+			if r.stop {
+				return
+			}
 			err, _ := r.addTx(w.R, obj)
 			if r.stop {
 				return
@@ -239,7 +247,13 @@ func (r *runner) round(round int, honest []*sent, forged []*tampered) {
 			acc = err == nil
 			if acc {
 				tm.memAcc = true
-				r.judgeAccept("replica mempool (cache "+warmth(warm[s])+")", s.kind, tm.name, tm.v, obj, tm)
+				r.judgeAccept(stage, s.kind, tm.name, tm.v, obj, tm)
+			}
+			// and what the object says about its sender afterwards
+			st.trail = append(st.trail, "AddTx")
+			r.fromLook(stage+" after the submission", s.kind, tm.name, tm.v, obj, tm, st)
+			if r.stop {
+				return
 			}
 		}
 		c.Evals(1)
@@ -403,7 +417,17 @@ func (r *runner) variants(round int, tams []*tampered, txs types.Txs, raws [][]b
 		mode := "honest-result"
 		victim := addr20{}
 		hasVictim := false
-		if !t.ghost && t.src.holder != nil {
+		if !t.ghost && t.src.holder != nil && t.src.kind != kCut && !t.v.ok && r.tm.Bool(1, 4) {
+			// the proposer names another funded account (the zero address when
+			// it is funded) as the sender in its own execution
+			alt := r.funded[r.tm.Int(len(r.funded))].addr
+			if r.zeroFunded && r.tm.Bool(1, 2) {
+				alt = common.Address{}
+			}
+			if storeFrom(obj, alt) {
+				victim, hasVictim, mode = addr20(alt), true, "other-account-result"
+			}
+		} else if !t.ghost && t.src.holder != nil {
 			if t.src.kind == kCut {
 				// the producer's execution does not look at upgrade signatures:
 				// the result hashes already charge the address in the from field
@@ -425,10 +449,29 @@ func (r *runner) variants(round int, tams []*tampered, txs types.Txs, raws [][]b
 			r.smp.Variants = append(r.smp.Variants, vr)
 			continue
 		}
-		nb, _, accepted, err := w.checkOn(w.R, blk)
+		st := &lookState{}
+		lookStage := fmt.Sprintf("block at height %d (%s, cache %s) as received", blk.Height, mode, warmth(warm[t.src]))
+		pick := func(nb *types.Block) types.Tx {
+			if pos >= 0 {
+				return nb.Data.Txs[pos]
+			}
+			return nb.Data.Txs[len(nb.Data.Txs)-1]
+		}
+		nb, _, accepted, err := w.checkOnLooks(w.R, blk, func(nb *types.Block) {
+			// what the receiving node does with the decoded object before it verifies the block
+			r.history(lookStage, w.R, pick(nb), t.src.kind, t.name, t.v, t, st, !t.v.ok)
+		})
+		if r.stop {
+			return
+		}
 		if err != nil {
 			c.Probe("variant-block-undecodable")
 			continue
+		}
+		st.trail = append(st.trail, "CheckBlock")
+		r.fromLook(lookStage+" after CheckBlock", t.src.kind, t.name, t.v, pick(nb), t, st)
+		if r.stop {
+			return
 		}
 		vr.Accepted = accepted
 		r.blkJudged++
@@ -531,6 +574,9 @@ func (r *runner) commit(blk *types.Block, raws [][]byte, subs []*sent) {
 	}
 	if r.ghost != nil {
 		watch[r.ghost.v.chargee] = true
+	}
+	if r.zeroFunded {
+		watch[addr20{}] = true
 	}
 	expect := map[addr20]uint64{}
 	for i, raw := range raws {
